@@ -49,8 +49,8 @@ ANCHORS = [
 
 def plan(tier):
     if tier == "quick":
-        return {"shards": 16, "classes": 130, "values": 10, "timeout": 300}
-    return {"shards": 16, "classes": 9000, "values": 10, "timeout": 3000}
+        return {"shards": 16, "classes": 130, "values": 10, "timeout": 900}
+    return {"shards": 16, "classes": 9000, "values": 10, "timeout": 7200}
 
 
 def parse_annotation(text, names):
